@@ -4,7 +4,12 @@
 package finalizer
 
 //@ func Manager.SyncObject(m, client, obj) (res, err)
-//@   requires m != nil && obj != nil && client != nil
+//@   requires m != nil && obj != nil && validClient(client)
+//@   safety C13
+//@   ensures [C10,C02] err == nil ==> res != nil && res.GetUID() == obj.GetUID()
+//@   ensures [C10] err == nil && m.Enabled && old(obj.GetDeletionTimestamp() == nil) ==> ContainsFinalizer(res, m.Name)
+//@   ensures [C10] err == nil && m.Enabled && old(obj.GetDeletionTimestamp() != nil) ==> res == obj
+//@   ensures [C10] err == nil && !m.Enabled ==> !ContainsFinalizer(res, m.Name)
 //@   at ResourceClient.AddFinalizer(rc, o, name) [C10]: m.Enabled && !ContainsFinalizer(obj, m.Name) && obj.GetDeletionTimestamp() == nil && o == obj && name == m.Name
 //@   at ResourceClient.RemoveFinalizer(rc, o, name) [C10]: !m.Enabled && ContainsFinalizer(obj, m.Name) && o == obj && name == m.Name
 //@   ensures [C10] old(ContainsFinalizer(obj, m.Name) == m.Enabled) ==> res == obj && err == nil && !called(ResourceClient.AddFinalizer) && !called(ResourceClient.RemoveFinalizer)
